@@ -37,8 +37,15 @@ ASSUMPTIONS = [
     '(wrapper.__init__ strips that layer from the ORIGINAL stack in place); run_rewrap still judges such a spec when replayed',
 ]
 
-NAMES = 'abcd'
+NAMES = ['a', 'b', 'c', 'd']
+NESTED = ['a', 'ab', 'abc', 'abcd']          # naming scheme 1: every name is a prefix of the next
 EXTRA_KW = ['x', 'y', 'z']
+# keywords for **vk that are spelled like parameters of the wrappers themselves
+# ('function' is left out: pyg_base.getcallargs(function, *args, **kwargs) cannot be given a keyword of that name - see ASSUMPTIONS)
+WRAPPER_WORDS = ['value', 'exc', 'cache', 'types', 'repeat']
+# undeclared / extra keywords for naming scheme 1: sub-, super- and near-strings of the declared names
+NESTED_EXTRA = ['b', 'bc', 'abcde', 'a_', 'v', 'x']
+FALSY_DEFAULTS = [None, 0, '', False]
 
 # ----------------------------------------------------------------------------- generated functions
 
@@ -59,9 +66,35 @@ def _sig(s):
     return n, d, va, vk
 
 
+def pnames(s):
+    """names of the declared parameters; s['nm'] = 1 selects the scheme in which every name is a prefix of the next"""
+    return (NESTED if s.get('nm') else NAMES)[:_sig(s)[0]]
+
+
+def extra_names(s):
+    """keywords a **vk function may additionally be given / a function without **vk does not declare"""
+    return NESTED_EXTRA if s.get('nm') else EXTRA_KW
+
+
+def default_spec(s, i):
+    """
+    value spec of the default of parameter i: s['dvals'] (one value per defaulted parameter) if present, else None / 0 / '' / False
+    when s['dv'] = 1, else the string 'D<name>'
+    """
+    n, d, va, vk = _sig(s)
+    if i < n - d:
+        raise HarnessError('parameter %i has no default' % i)
+    if 'dvals' in s:
+        return s['dvals'][i - (n - d)]
+    if s.get('dv'):
+        return FALSY_DEFAULTS[i]
+    return 'D' + pnames(s)[i]
+
+
 def sig_text(s):
     n, d, va, vk = _sig(s)
-    ps = [NAMES[i] if i < n - d else "%s='D%s'" % (NAMES[i], NAMES[i]) for i in range(n)]
+    nms = pnames(s)
+    ps = [nms[i] if i < n - d else "%s=%r" % (nms[i], build(default_spec(s, i))) for i in range(n)]
     if va:
         ps.append('*va')
     if vk:
@@ -118,23 +151,52 @@ def make_fn(s, log, counter=False, ret=None):
     exec-s `def f(<signature>)`; the body appends to log (the side channel that counts evaluations), raises when told to, and returns
     all it received - or, in the return modes ['const', v] / ['by_first'], None / 0 / False / '' / [] / {} (see apply_ret)
     """
-    n, d, va, vk = _sig(s)
-    src = 'def f(%s):\n    return _body([%s], %s, %s)\n' % (
-        sig_text(s), ', '.join("['%s', %s]" % (NAMES[i], NAMES[i]) for i in range(n)), 'va' if va else 'None', 'vk' if vk else 'None')
+    return make_family(s, [log], [None], counter=counter, ret=ret)[0]
 
-    def _body(p, va_, vk_):
+
+def _params_src(s, dflt):
+    """parameter list in which the defaults are the expressions dflt[0], dflt[1], ... evaluated when the def / lambda is executed"""
+    n, d, va, vk = _sig(s)
+    nms = pnames(s)
+    ps = [nms[i] if i < n - d else '%s=_dflt[%i]' % (nms[i], i - (n - d)) for i in range(n)]
+    if va:
+        ps.append('*va')
+    if vk:
+        ps.append('**vk')
+    return ', '.join(ps)
+
+
+def make_family(s, logs, dvals_list, form='def', counter=False, ret=None):
+    """
+    functions made by ONE factory (they share one code object) with different default values and different closures (each its own log).
+    dvals_list[j] = value specs of the defaults of function j (None: the defaults of s). form 'def' or 'lambda'.
+    """
+    n, d, va, vk = _sig(s)
+    nms = pnames(s)
+    report = '_body(_log, [%s], %s, %s)' % (', '.join("['%s', %s]" % (nm, nm) for nm in nms), 'va' if va else 'None', 'vk' if vk else 'None')
+    if form == 'def':
+        src = 'def factory(_log, _dflt):\n    def f(%s):\n        return %s\n    return f\n' % (_params_src(s, None), report)
+    else:
+        src = 'def factory(_log, _dflt):\n    return lambda %s: %s\n' % (_params_src(s, None), report)
+
+    def _body(log, p, va_, vk_):
         log.append(1)
         vals = [v for _, v in p] + list(va_ or ()) + [vk_[k] for k in (vk_ or {})]
         for v in vals:
             if isinstance(v, str) and v.startswith('!'):
                 raise EXC[v[1:]]('f was told to raise')
-        res = {'p': p, 'va': va_, 'vk': vk_}
+        # 'vko': the order in which the extra keywords arrived is part of what f received
+        res = {'p': p, 'va': va_, 'vk': vk_, 'vko': None if vk_ is None else list(vk_)}
         if counter:
             res['n'] = len(log)
         return apply_ret(ret, res)
     ns = {'_body': _body}
     exec(src, ns)
-    return ns['f']
+    out = []
+    for log, dvals in zip(logs, dvals_list):
+        sj = s if dvals is None else dict(s, dvals=dvals)
+        out.append(ns['factory'](log, [build(default_spec(sj, i)) for i in range(n - d, n)]))
+    return out
 
 
 def model_bind(s, args, kwargs):
@@ -143,7 +205,7 @@ def model_bind(s, args, kwargs):
     or None when the call is not valid for the signature. `kwargs` is a list of [name, value].
     """
     n, d, va, vk = _sig(s)
-    names = NAMES[:n]
+    names = pnames(s)
     if len(args) > n and not va:
         return None
     bound = {}
@@ -170,9 +232,10 @@ def model_bind(s, args, kwargs):
         if nm not in bound:
             if i < n - d:
                 return None
-            bound[nm] = 'D' + nm
+            bound[nm] = default_spec(s, i)
             ndef += 1
-    res = {'p': [[nm, bound[nm]] for nm in names], 'va': tuple(args[n:]) if va else None, 'vk': extra if vk else None}
+    res = {'p': [[nm, bound[nm]] for nm in names], 'va': tuple(args[n:]) if va else None, 'vk': extra if vk else None,
+           'vko': list(extra) if vk else None}
     callargs = dict(bound)
     if va:
         callargs['va'] = tuple(args[n:])
@@ -210,14 +273,13 @@ def first_arg(s, args, kwargs):
         return True, args[0]
     if n:
         for k, v in kwargs:
-            if k == NAMES[0]:
+            if k == pnames(s)[0]:
                 return True, v
     return False, None
 
 
 def has_extra_kw(s, kwargs):
-    n = _sig(s)[0]
-    return any(k not in NAMES[:n] for k, _ in kwargs)
+    return any(k not in pnames(s) for k, _ in kwargs)
 
 
 def call_text(s, args, kwargs):
@@ -253,11 +315,16 @@ def stack_text(stack):
     return ''.join('%s(' % nm for nm in stack) + 'f' + ')' * len(stack)
 
 
-def wrap(stack, f, decos=None):
-    """stack[0] is the outermost decorator"""
+TWO_STEP = ['try_none', 'try_back', 'kwargs_support', 'pd2np']     # classes: D()(f) is the parameterised spelling of D(f)
+
+
+def wrap(stack, f, decos=None, two_step=False):
+    """stack[0] is the outermost decorator; two_step: class decorators are applied as D()(f) instead of D(f)"""
     w = f
     for i in range(len(stack) - 1, -1, -1):
         d = decos[stack[i]] if decos else deco(stack[i])
+        if two_step and stack[i] in TWO_STEP:
+            d = call('%s()' % stack[i], d)
         w = call('%s' % stack_text(stack[i:]), d, w)
     return w
 
@@ -266,7 +333,11 @@ def admissible(name, s, args, kwargs):
     """may decorator `name` sit in a stack judged on this (valid) call? - the domain notes of ASSUMPTIONS"""
     if name == 'loop':
         ok, v = first_arg(s, args, kwargs)
-        return not (ok and is_container_spec(v))
+        n, d, va, vk = _sig(s)
+        if not ok and n and d == n:
+            # left to its default: call_with_callargs passes the default positionally, so it is the first argument there
+            v = default_spec(s, 0)
+        return not is_container_spec(v)
     if name == 'pd2np':
         return first_arg(s, args, kwargs)[0]
     if name == 'kwargs_support':
@@ -330,7 +401,7 @@ def expected(s, args, kwargs):
         raise HarnessError('generator produced an invalid call: %s' % call_text(s, args, kwargs))
     res, callargs, nkw, ndef = m
     exp = {'p': [[nm, build(v)] for nm, v in res['p']], 'va': None if res['va'] is None else tuple(build(v) for v in res['va']),
-           'vk': None if res['vk'] is None else {k: build(v) for k, v in res['vk'].items()}}
+           'vk': None if res['vk'] is None else {k: build(v) for k, v in res['vk'].items()}, 'vko': res['vko']}
     return exp, callargs, nkw, ndef
 
 
@@ -354,7 +425,12 @@ _val = st.one_of(_scal, _scal, _cont)
 def s_sig(draw, vk=None, min_n=0):
     n = draw(st.integers(min_n, 4))
     d = draw(st.integers(0, n))
-    return dict(n=n, d=d, va=draw(st.booleans()), vk=draw(st.booleans()) if vk is None else vk)
+    s = dict(n=n, d=d, va=draw(st.booleans()), vk=draw(st.booleans()) if vk is None else vk)
+    if draw(st.sampled_from([False, False, True])):
+        s['nm'] = 1       # names that are prefixes of one another
+    if draw(st.sampled_from([False, False, True])):
+        s['dv'] = 1       # defaults None / 0 / '' / False
+    return s
 
 
 @st.composite
@@ -370,11 +446,11 @@ def s_call(draw, s, need_first=False, scalar_first=False, extra_kw=True):
         can_omit = i >= n - d and not (need_first and i == 0)
         if can_omit and draw(st.booleans()):
             continue
-        kwargs.append([NAMES[i], draw(_val)])
+        kwargs.append([pnames(s)[i], draw(_val)])
     if va and k == n:
         args += [draw(_val) for _ in range(draw(st.integers(0, 2)))]
     if vk and extra_kw:
-        for nm in draw(st.lists(st.sampled_from(EXTRA_KW), max_size=2, unique=True)):
+        for nm in draw(st.lists(st.sampled_from(extra_names(s) + ([] if s.get('nm') else WRAPPER_WORDS)), max_size=2, unique=True)):
             kwargs.append([nm, draw(_val)])
     kwargs = list(draw(st.permutations(kwargs)))
     if scalar_first:
@@ -383,7 +459,7 @@ def s_call(draw, s, need_first=False, scalar_first=False, extra_kw=True):
                 args[0] = draw(_scal)
         else:
             for kv in kwargs:
-                if kv[0] == NAMES[0] and n and is_container_spec(kv[1]):
+                if n and kv[0] == pnames(s)[0] and is_container_spec(kv[1]):
                     kv[1] = draw(_scal)
     return args, kwargs
 
@@ -426,6 +502,8 @@ def s_transparent(draw):
         a2, k2 = draw(s_call(s2))
         if all(admissible(nm, s2, a2, k2) for nm in stack):
             spec['other'] = dict(sig=s2, args=a2, kwargs=k2)
+    if any(nm in TWO_STEP for nm in stack) and draw(st.booleans()):
+        spec['two_step'] = True
     return spec
 
 
@@ -453,7 +531,7 @@ def run_transparent(spec):
         f = make_fn(s, log, ret=ret)
         direct(f, s, args, kwargs, exp)
         what = stack_text(stack)
-        w = wrap(stack, f, decos)
+        w = wrap(stack, f, decos, two_step=bool(spec.get('two_step')))
         # the signature, asked before and after a call (the wrapper caches it)
         check_argspec(what, w, f)
         a, k = bvals(args, kwargs)
@@ -475,6 +553,16 @@ def run_transparent(spec):
             cls.append('kw+default')
         if which == 'g':
             cls.append('second_function_same_decorators')
+        if s.get('nm') and _sig(s)[0] >= 2:
+            cls.append('names_prefixes_of_one_another')
+        if s.get('dv') and ndef:
+            cls.append('falsy_default_relied_on')
+        if any(k in WRAPPER_WORDS for k, _ in kwargs):
+            cls.append('keyword_named_like_wrapper_parameter')
+        if len([k for k, _ in kwargs if k not in pnames(s)]) >= 2:
+            cls.append('two_extra_keywords_in_order')
+    if spec.get('two_step'):
+        cls.append('two_step_spelling')
     return dict(nt=nt, cls=cls)
 
 
@@ -511,7 +599,7 @@ def _probes(s):
     out = [('valid', base, []), ('valid again', base, [])]
     if n:
         out.append(('told to raise', ['!ValueError'] + base[1:], []))
-        out.append(('told to raise by keyword', [], [[NAMES[i], '!KeyError' if i == n - 1 else _PROBE_VALS[i]] for i in range(n)]))
+        out.append(('told to raise by keyword', [], [[pnames(s)[i], '!KeyError' if i == n - 1 else _PROBE_VALS[i]] for i in range(n)]))
     elif va:
         out.append(('told to raise', ['!ValueError'], []))
     elif vk:
@@ -626,7 +714,7 @@ def s_try(draw):
             elif vk:
                 kwargs = [['x', 0]]
             else:
-                kwargs = [[NAMES[n - 1], 0]]
+                kwargs = [[pnames(s)[n - 1], 0]]
             slots = [('a', 0)] if args else [('k', 0)]
         kind, i = draw(st.sampled_from(slots))
         told = '!' + draw(st.sampled_from(sorted(EXC)))
@@ -714,7 +802,7 @@ def s_kws(draw):
     mode = 'declared_only' if vk else draw(st.sampled_from(['undeclared', 'undeclared', 'undeclared', 'duplicate', 'declared_only']))
     extra = []
     if mode == 'undeclared':
-        names = EXTRA_KW + ['va', 'vk', 'function', 'e'] + [nm for nm in NAMES[n:]]
+        names = extra_names(s) + ['va', 'vk', 'function', 'e'] + [nm for nm in (NESTED if s.get('nm') else NAMES)[n:]] + ([] if s.get('nm') else WRAPPER_WORDS[:3])
         for nm in draw(st.lists(st.sampled_from(names), min_size=1, max_size=3, unique=True)):
             extra.append([nm, draw(_val)])
     if mode == 'duplicate':
@@ -722,7 +810,7 @@ def s_kws(draw):
         if npos == 0:
             mode = 'declared_only'
         else:
-            extra.append([NAMES[draw(st.integers(0, npos - 1))], draw(_val)])
+            extra.append([pnames(s)[draw(st.integers(0, npos - 1))], draw(_val)])
     passed = list(draw(st.permutations(kwargs + extra)))
     ok = [nm for nm in ['try_back', 'cache', 'loop', 'pd2np'] + TRY_VALUES if admissible(nm, s, args, kwargs)]
     stack = ['kwargs_support']
@@ -737,7 +825,7 @@ def s_kws(draw):
 def run_kws(spec):
     s, args, kwargs, passed, mode, stack = spec['sig'], spec['args'], spec['kwargs'], spec['passed'], spec['mode'], spec['stack']
     n, d, va, vk = _sig(s)
-    declared = NAMES[:n]
+    declared = pnames(s)
     if mode != 'duplicate' and sorted(map(repr, kwargs)) != sorted(repr(kv) for kv in passed if kv[0] in declared):
         raise HarnessError('kwargs / passed disagree in %r' % (spec,))
     if vk and any(k not in declared for k, _ in passed):
@@ -769,9 +857,214 @@ def run_kws(spec):
         cls.append('declared+undeclared_keywords')
     if nun and any(kv[0] in ('va', 'vk') for kv in passed):
         cls.append('undeclared_named_like_varargs')
-    if nun and any(kv[0] in NAMES for kv in passed if kv[0] not in declared):
+    if nun and any(kv[0] in NAMES + NESTED for kv in passed if kv[0] not in declared):
         cls.append('undeclared_named_like_parameter')
+    if nun and s.get('nm') and n:
+        und = [kv[0] for kv in passed if kv[0] not in declared]
+        if any(u != dn and (u in dn or dn in u) for u in und for dn in declared):
+            cls.append('undeclared_is_substring_or_superstring_of_declared')
+    if nun and any(kv[0] in WRAPPER_WORDS for kv in passed if kv[0] not in declared):
+        cls.append('undeclared_named_like_wrapper_parameter')
     return dict(nt=nun >= 1, cls=cls)
+
+
+# ----------------------------------------------------------------------------- sub-check: functions sharing one code object
+
+DEFAULT_POOL = [None, 0, 1, '', 'D', 'E', False, ['list', []], ['list', [1]]]
+
+
+@st.composite
+def s_same_code(draw):
+    """2-3 functions from ONE factory (same __code__), different defaults and closures; inspected / bound / called in interleaved order"""
+    n = draw(st.integers(1, 4))
+    d = draw(st.integers(1, n))
+    s = dict(n=n, d=d, va=draw(st.booleans()), vk=draw(st.booleans()))
+    if draw(st.booleans()):
+        s['nm'] = 1
+    nf = draw(st.sampled_from([2, 2, 3]))
+    dvals = []
+    while len(dvals) < nf:
+        dv = [draw(st.sampled_from(DEFAULT_POOL)) for _ in range(d)]
+        if dv in dvals:
+            # make it differ from every earlier function in the LAST default (the one most often left unfilled)
+            dv[-1] = ['list', [7, len(dvals)]]
+        dvals.append(dv)
+    nops = draw(st.integers(3, 8))
+    ops = []
+    for _ in range(nops):
+        fn = draw(st.integers(0, nf - 1))
+        kind = draw(st.sampled_from(['spec', 'call', 'call', 'bind', 'bind']))
+        if kind == 'spec':
+            ops.append([fn, kind, [], []])
+        else:
+            args, kwargs = draw(s_call(s))
+            ops.append([fn, kind, args, kwargs])
+    calls = [(op[2], op[3]) for op in ops if op[1] != 'spec']
+    ok = [nm for nm in DECOS if all(admissible(nm, s, a, k) for a, k in calls)]
+    klasses = sorted(set(KLASS[nm] for nm in ok))
+    stack = []
+    for _ in range(draw(st.sampled_from([0, 0, 1, 1, 2]))):
+        c = draw(st.sampled_from(klasses))
+        stack.append(draw(st.sampled_from([nm for nm in ok if KLASS[nm] == c])))
+    return dict(sig=s, form=draw(st.sampled_from(['def', 'lambda'])), dvals=dvals, stack=stack, ops=ops)
+
+
+def run_same_code(spec):
+    s, form, dvals, stack, ops = spec['sig'], spec['form'], spec['dvals'], spec['stack'], spec['ops']
+    nf = len(dvals)
+    logs = [[] for _ in range(nf)]
+    fs = make_family(s, logs, dvals, form=form)
+    if len(set(id(f.__code__) for f in fs)) != 1 or len(set(id(f) for f in fs)) != nf:
+        raise HarnessError('the factory did not produce distinct functions sharing one code object')
+    sigs = [dict(s, dvals=dv) for dv in dvals]
+    decos = {nm: deco(nm) for nm in set(stack)}
+    ws = [wrap(stack, f, decos) if stack else f for f in fs]
+    what = stack_text(stack)
+    inspected, unfilled_later, seen_fns = [], False, []
+    for fn, kind, args, kwargs in ops:
+        f, w, sj = fs[fn], ws[fn], sigs[fn]
+        label = '%s [function %i of %i from one %s factory, defaults %s]' % (what, fn, nf, form, [build(v) for v in dvals[fn]])
+        if kind == 'spec':
+            check_argspec(label, w, f)
+        else:
+            for nm in stack:
+                if not admissible(nm, sj, args, kwargs):
+                    raise HarnessError('%s is outside the claimed domain' % nm)
+            exp, callargs, nkw, ndef = expected(sj, args, kwargs)
+            direct(f, sj, args, kwargs, exp)
+            if kind == 'bind':
+                check_binding(label, w, f, sj, args, kwargs, exp, callargs)
+            else:
+                a, k = bvals(args, kwargs)
+                r = call('%s for %s' % (label, call_text(sj, args, kwargs)), w, *a, **k)
+                check(same(r, exp), '%s for %s returned %s, f itself returns %s', label, call_text(sj, args, kwargs), r, exp)
+            if ndef and seen_fns and fn != seen_fns[0] and dvals[fn] != dvals[seen_fns[0]]:
+                unfilled_later = True
+        if fn not in seen_fns:
+            seen_fns.append(fn)
+        inspected.append(fn)
+    # finally every function reports its own defaults, in reverse order of creation
+    for fn in range(nf - 1, -1, -1):
+        check_argspec('%s [function %i of %i from one %s factory]' % (what, fn, nf, form), ws[fn], fs[fn])
+    switches = sum(1 for a, b in zip(inspected, inspected[1:]) if a != b)
+    cls = ['form=' + form, 'functions=%i' % nf, 'depth=%i' % len(stack)]
+    if switches >= 2:
+        cls.append('interleaved')
+    if unfilled_later:
+        cls.append('default_left_unfilled_on_function_inspected_later')
+    if any(not build(v) for dv in dvals for v in dv):
+        cls.append('falsy_default')
+    if len(ops) > len(set(op[0] for op in ops)):
+        cls.append('same_function_bound_or_called_twice')
+    return dict(nt=unfilled_later, cls=cls)
+
+
+# ----------------------------------------------------------------------------- sub-check: large numbers of keys / arguments
+
+LARGE = [64, 65, 100, 128, 129, 200, 256, 300]
+
+
+def _long_call(s, npos, nkw, kw_order):
+    args = [1] * _sig(s)[0] + [i % 7 for i in range(npos)]
+    kwargs = [['k%03i' % i, i % 5] for i in range(nkw)]
+    return args, kwargs[::-1] if kw_order == 'down' else kwargs
+
+
+def large_cases():
+    for N in LARGE:
+        for shape in ['positional', 'keyword', 'same_len_first_last', 'pos+kw', 'list']:
+            for order in ['same', 'reversed', 'rotated']:
+                for ret in [None, ['by_first']]:
+                    yield dict(part='cache_keys', N=N, shape=shape, order=order, ret=ret)
+    sigs = [dict(n=1, d=0, va=True, vk=True), dict(n=0, d=0, va=True, vk=False), dict(n=0, d=0, va=False, vk=True), dict(n=2, d=1, va=True, vk=True)]
+    c = 0
+    for N in [64, 65, 128, 200]:
+        for s in sigs:
+            modes = [(N, 0)] * s['va'] + [(0, N)] * s['vk'] + [(N, N), (3, N)] * (s['va'] and s['vk'])
+            for npos, nkw in modes:
+                for nm in DECOS:
+                    c += 1
+                    order = 'down' if c % 2 else 'up'
+                    args, kwargs = _long_call(s, npos, nkw, order)
+                    stack = [nm] if c % 3 else [nm, DECOS[(c * 7 + 3) % len(DECOS)]]
+                    stack = [x for x in stack if admissible(x, s, args, kwargs)]
+                    if stack:
+                        yield dict(part='long_call', N=N, sig=s, npos=npos, nkw=nkw, stack=stack, kw_order=order)
+
+
+_LARGE = []
+
+
+def enum_large(tier):
+    if not _LARGE:
+        _LARGE.extend(large_cases())
+
+    def chunker(i, nchunks):
+        for j in range(i, len(_LARGE), nchunks):
+            yield _LARGE[j]
+    return len(_LARGE), chunker
+
+
+def _large_key(shape, i):
+    if shape == 'positional':
+        return [i], []
+    if shape == 'keyword':
+        return [], [['a', i]]
+    if shape == 'same_len_first_last':
+        return [0, i, 0], []          # same length, same first and last element: only the middle tells the keys apart
+    if shape == 'pos+kw':
+        return [i % 8], [['x', i // 8]]
+    return [['list', [i // 16, i % 16]]], []
+
+
+def run_large(spec):
+    N = spec['N']
+    if spec['part'] == 'cache_keys':
+        s = dict(n=1, d=0, va=True, vk=True)
+        ret = spec.get('ret')
+        log = []
+        f = make_fn(s, log, counter=True, ret=ret)
+        w = wrap(['cache'], f)
+        first = []
+        for i in range(N):
+            args, kwargs = _large_key(spec['shape'], i)
+            exp = expected(s, args, kwargs)[0]
+            a, k = bvals(args, kwargs)
+            r = call('cache(f) for %s (key %i of %i)' % (call_text(s, args, kwargs), i, N), w, *a, **k)
+            check(len(log) == i + 1, 'cache(f): after %s distinct argument combinations f was evaluated %s times', i + 1, len(log))
+            exp = apply_ret(ret, dict(exp, n=len(log)))
+            check(same(r, exp), 'cache(f) for %s returned %s, f returns %s', call_text(s, args, kwargs), r, exp)
+            first.append(exp)
+        order = list(range(N))
+        if spec['order'] == 'reversed':
+            order = order[::-1]
+        elif spec['order'] == 'rotated':
+            order = order[N // 2:] + order[:N // 2]
+        for i in order:
+            args, kwargs = _large_key(spec['shape'], i)
+            a, k = bvals(args, kwargs)
+            r = call('cache(f) for %s (key %i of %i, second round)' % (call_text(s, args, kwargs), i, N), w, *a, **k)
+            check(len(log) == N, 'cache(f) holding %s keys: key number %s was passed again and f was evaluated again (%s evaluations)', N, i, len(log))
+            check(same(r, first[i]), 'cache(f) holding %s keys: key number %s returned %s, its first result was %s', N, i, r, first[i])
+        return dict(nt=True, cls=['cache_keys', 'N=%i' % N, 'shape=' + spec['shape'], 'order=' + spec['order']] + (['falsy_results'] if ret else []))
+    s, stack = spec['sig'], spec['stack']
+    args, kwargs = _long_call(s, spec['npos'], spec['nkw'], spec['kw_order'])
+    for nm in stack:
+        if not admissible(nm, s, args, kwargs):
+            raise HarnessError('%s is outside the claimed domain' % nm)
+    exp, callargs, nkw, ndef = expected(s, args, kwargs)
+    log = []
+    f = make_fn(s, log)
+    direct(f, s, args, kwargs, exp)
+    what = stack_text(stack)
+    w = wrap(stack, f)
+    txt = 'f(%s) called with %i positional and %i keyword arguments' % (sig_text(s), len(args), len(kwargs))
+    a, k = bvals(args, kwargs)
+    r = call('%s for %s' % (what, txt), w, *a, **k)
+    check(same(r, exp), '%s for %s returned %s, f itself returns %s', what, txt, r, exp)
+    check_argspec(what, w, f)
+    check_binding(what, w, f, s, args, kwargs, exp, callargs)
+    return dict(nt=True, cls=['long_call', 'N=%i' % N, 'positional=%i' % min(len(args), 64), 'keyword=%i' % min(len(kwargs), 64)])
 
 
 # ----------------------------------------------------------------------------- sub-check: exhaustive signature x split grid
@@ -802,6 +1095,15 @@ def grid_cases():
                                         yield dict(sig=s, args=args, kwargs=kwargs)
                                         if len(kwargs) >= 2:
                                             yield dict(sig=s, args=args, kwargs=kwargs[::-1])
+                                    if n >= 2 or d >= 1:
+                                        # names that are prefixes of one another, defaults None / 0 / '' / False, extra keywords that are
+                                        # sub-/super-strings of the declared names
+                                        s1 = dict(s, nm=1, dv=1)
+                                        V = GRID_VALUES['scalars']
+                                        args = V['pos'][:k] + V['xpos'][:ep]
+                                        kwargs = [[NESTED[i], V['kw'][i]] for i, c in zip(range(k, n), choice) if c == 'kw']
+                                        kwargs += [[NESTED_EXTRA[j], V['xkw'][j]] for j in range(ek)]
+                                        yield dict(sig=s1, args=args, kwargs=kwargs[::-1])
 
 
 _GRID = []
@@ -865,6 +1167,10 @@ def run_grid(spec):
         cls.append('extra_positional')
     if has_extra_kw(s, kwargs):
         cls.append('extra_keyword')
+    if s.get('nm'):
+        cls.append('nested_names+falsy_defaults')
+        if ndef:
+            cls.append('falsy_default_relied_on')
     return dict(nt=nkw >= 1 and ndef >= 1, cls=cls)
 
 
@@ -1055,6 +1361,18 @@ SUBS = [
                floor=0.3, class_floors={'hit_after_other_key': 0.3, 'hit_with_keywords_reordered': 0.05, 'hit_with_container_argument': 0.1,
                                         'same_arguments_on_two_functions': 0.1, 'same_binding_other_split': 0.1,
                                         'cached_result_is_None': 0.15, 'cached_result_is_falsy': 0.3, 'cached_result_is_report': 0.3}),
+    Sub('same_code', lambda tier: s_same_code(), run_same_code, quick=800, thorough=15000,
+        rule='2-3 functions produced by ONE factory (def or lambda: they share one code object) with different default values and different closures, '
+             'bare or under 1-2 decorators; 3-8 operations in random interleaved order: getargspec, getcallargs + call_with_callargs, or a call, each judged '
+             'against that function\'s own defaults (own binding model, direct call, inspect); finally every function must still report its own defaults. '
+             'non-trivial = a call / binding that leaves a defaulted parameter unfilled on a function whose defaults differ from the first-inspected one',
+        floor=0.3, class_floors={'default_left_unfilled_on_function_inspected_later': 0.3, 'form=lambda': 0.2, 'form=def': 0.2, 'interleaved': 0.3,
+                                 'falsy_default': 0.3, 'same_function_bound_or_called_twice': 0.5}),
+    EnumSub('large', enum_large, run_large, chunks=8,
+        rule='size thresholds (enumerated completely in both tiers): (a) one cached function given N in {64,65,100,128,129,200,256,300} distinct argument combinations (positional ints, keyword, '
+             '(0,i,0) = same length/first/last, positional+keyword, lists), then all of them again in the same / reversed / rotated order: N evaluations '
+             'in all, every repeat returns its first result (half the functions return None / falsy values); (b) calls with N extra positionals and/or '
+             'N extra keywords through 1-2 decorators: result, getargspec, getcallargs / call_with_callargs. every case is non-trivial'),
     EnumSub('binding_grid', enum_grid, run_grid, chunks=16,
             rule='EVERY signature (0-4 positional parameters x 0..n trailing defaults x +-*va x +-**vk = 60) x EVERY split of a valid argument set '
                  '(positional prefix 0..n, each remaining parameter by keyword or left to its default, 0-2 extra positionals for *va, 0-2 extra keywords '
